@@ -92,5 +92,6 @@ func checkC16(c *mc.Ctx) {
 	}
 	c16CallMerges(c)
 	c16CallerPayload(c)
-	c.Ev.Require("race-pass-ran", "pool-operations-interleaved", "muxer-call-merges", "demuxer-call-merges")
+	c16RewindRetention(c)
+	c.Ev.Require("race-pass-ran", "pool-operations-interleaved", "muxer-call-merges", "demuxer-call-merges", "results-kept-across-rewind")
 }
